@@ -132,6 +132,9 @@ pub struct Cfg {
     pub s_drop_conn: bool,
     /// server calls abrupt_shutdown(reason) after accepting this many requests
     pub abrupt_after: Option<(usize, u32)>,
+    /// an extra client task: send a request (parked if the concurrency limit is reached), reset it at once, then wait
+    /// for readiness on the same SendRequest
+    pub c_parked_reset_then_ready: bool,
 }
 
 impl Default for Cfg {
@@ -162,6 +165,7 @@ impl Default for Cfg {
             c_drop_conn: false,
             s_drop_conn: false,
             abrupt_after: None,
+            c_parked_reset_then_ready: false,
         }
     }
 }
@@ -721,6 +725,7 @@ impl T1 {
             let ping = sc.cfg.ping;
             let c_set_window = sc.cfg.c_set_window;
             let c_drop_conn = sc.cfg.c_drop_conn;
+            let parked_reset = sc.cfg.c_parked_reset_then_ready;
             let sh_c = sh.clone();
             spawner.spawn("connC", async move {
                 let (sr, mut conn) = match b.handshake::<_, Bytes>(io).await {
@@ -737,6 +742,31 @@ impl T1 {
                 }
                 for (k, s) in streams.into_iter().enumerate() {
                     sp.spawn(&format!("c{}", k), client_stream(k, s, sr.clone(), log.clone(), sp.clone()));
+                }
+                if parked_reset {
+                    let mut sr2 = sr.clone();
+                    let log = log.clone();
+                    sp.spawn("c-parked", async move {
+                        let k = usize::MAX - 1;
+                        if let Err(e) = poll_fn(|cx| sr2.poll_ready(cx)).await {
+                            log.push(Side::Client, k, Dir::Req, true, Ev::Err(format!("poll_ready: {}", err_text(&e))));
+                            return;
+                        }
+                        match sr2.send_request(build_request(90, &MsgSpec::simple(&[1]), ""), false) {
+                            Ok((rf, mut ss)) => {
+                                ss.send_reset(Reason::CANCEL);
+                                log.push(Side::Client, k, Dir::Req, true, Ev::Reset(8));
+                                drop(rf);
+                                let r = poll_fn(|cx| sr2.poll_ready(cx)).await;
+                                log.push(Side::Client, k, Dir::Req, true, match r {
+                                    Ok(()) => Ev::Done,
+                                    Err(e) => Ev::Err(format!("poll_ready after reset: {}", err_text(&e))),
+                                });
+                                drop(ss);
+                            }
+                            Err(e) => log.push(Side::Client, k, Dir::Req, true, Ev::Err(format!("send_request: {}", err_text(&e)))),
+                        }
+                    });
                 }
                 if ping {
                     if let Some(mut pp) = conn.ping_pong() {
